@@ -649,3 +649,41 @@ def zero_edges(si, what):
         if len(arms) == 1 and arms[0][0] == 0 and len(oth) == 1:
             return arms[0][1], oth[0]
     return None
+
+
+def guarded_defs(fn, op, depth=8):
+    """The definitions of the value in operand `op`, one per assignment of the variable it was copied from, each with the
+    block and the path condition (path_condition conjuncts, or None) under which that assignment runs:
+    [(block|None, conjuncts|None, expr)].  Plain copies and field reads of a copied tuple/struct are looked through, so
+    `let (a, b) = match x { P => (e1, e2), Q => (e3, e4) }; .. use(b)` yields (P, e2) and (Q, e4) separately."""
+    from .core import _apply_proj
+    c = op.get("const") if isinstance(op, dict) else None
+    if c is not None:
+        return [(None, [], fn.expr(op))]
+    pl = op.get("copy") or op.get("move") or op
+    l, proj = pl["l"], list(pl["p"])
+    for _ in range(depth):
+        if 1 <= l <= fn.nargs:
+            break
+        ds = fn.defs(l)
+        if len(ds) == 1 and not ds[0][0] and ds[0][3] == "rv" and ds[0][4]["k"] == "use":
+            a = ds[0][4]["a"]
+            src = a.get("copy") or a.get("move")
+            if src is None or "*" in [x for x in src["p"] if isinstance(x, str)]:
+                break
+            l, proj = src["l"], list(src["p"]) + proj
+            continue
+        break
+    ds = fn.defs(l)
+    if not ds or any(d[0] for d in ds) or 1 <= l <= fn.nargs:
+        return [(None, [], deep_strip(fn.expr(op)))]
+    out = []
+    for (dp, b, i, kind, payload) in ds:
+        if kind == "rv":
+            e = fn._rvalue(payload, frozenset([l]), 40, b)
+        elif kind == "call":
+            e = fn._call_expr(payload, b, frozenset([l]), 40)
+        else:
+            return [(None, [], deep_strip(fn.expr(op)))]
+        out.append((b, path_condition(fn, b), _apply_proj(e, proj, fn, frozenset([l]), 40)))
+    return out
